@@ -143,6 +143,7 @@ def plan(ctx):
         for ab in ("buffer:1,map_async:2", "map_async:2,buffer:1", "buffer:2,rate_limit:1", "timed_window:1,buffer:1",
                    "partition:2:1,map_async:1", "delay:1,buffer:1", "map_async:1,map_async:2"):
             jobs.append((("chain", ab, "native", "await", 3, 1), 0))
+        jobs.append((("chain", "map_async:1", "sync", "burst", 4, 1), 1))
         jobs.append((("chain", "buffer:1", "future", "await", 3, 2), 1))
         jobs.append((("chain", "map_async:2", "native", "await", 2, 2), 0))
         for kind in KINDS:
